@@ -9,7 +9,7 @@ use num_traits::{CheckedSub, ToPrimitive};
 use serde_json::json;
 use whirlpool::math::sqrt_price_from_tick_index;
 
-#[derive(Debug, PartialEq, Eq)]
+#[derive(Debug, Clone, PartialEq, Eq)]
 pub struct TradedEv {
     pub whirlpool: [u8; 32],
     pub a_to_b: bool,
@@ -297,13 +297,18 @@ pub fn check_history(case: &HistoryCase, l: &mut Local) -> Result<(), String> {
 pub fn def() -> CheckDef {
     CheckDef {
         id: "C06",
-        rule: "mixed-op histories on static-fee pools (fee rate 0..=60000, protocol rate 0..=2500) through the real entrypoint; every successful swap is checked \
+        rule: "mixed-op histories on static-fee and (one in five) adaptive-fee pools (fee rate 0..=60000, protocol rate 0..=2500) through the real entrypoint; every successful swap is checked \
                step by step from the H2 trace (fee formula or remainder, protocol cut floor, LP growth floor with wrap, static rate), against account deltas of \
                every token account in the world (trader pays exactly sum(in+fee), receives sum(out), nothing else moves), the pool's owed/growth fields and \
                the emitted Traded event; single-segment swaps are re-derived hook-free from deltas + the exact curve and must agree with the trace; \
                collect_protocol_fees pays exactly what was owed and resets it; no other instruction changes what is owed.  Non-trivial = history with a \
-               swap of >=2 steps incl. a crossing or zero-liquidity gap with protocol rate > 0.  Adaptive-fee rates are decided in C14.",
+               swap of >=2 steps incl. a crossing or zero-liquidity gap with protocol rate > 0.  Adaptive-fee rates are decided in C14.  two_hop_trade_records: the trade records and balance movements of a two-hop equal those of its two single swaps.",
         assumptions: vec!["nsvm runtime as in DESIGN.md §5", "H2 trace hook; cross-validated hook-free on single-segment swaps"],
-        subs: vec![sub("histories", 30_000, 600_000, || history_strategy(false, false, 40), |c: &HistoryCase, l: &mut Local| check_history(c, l))],
+        subs: vec![
+            sub("histories", 30_000, 600_000, || history_strategy(false, false, 40), |c: &HistoryCase, l: &mut Local| check_history(c, l)),
+            // two-hop swaps: the two trade records must be those of the two single swaps (each of which the histories sub-check decides
+            // against the per-step formulas), and the trader pays only leg one's input (C17's comparison, run here for the C06 clauses)
+            sub("two_hop_trade_records", 10_000, 300_000, super::c17::case_strategy, |c: &super::c17::TwoHopCase, l: &mut Local| super::c17::check_case(c, l, false)),
+        ],
     }
 }
